@@ -105,6 +105,15 @@ pub struct USpec {
     pub hash: HashT,
     pub m: usize,
     pub setp: Option<SetP>,
+    /// SetSketcher only: build the node with `SetSketcher::default()` (the spec then carries the default parameters)
+    #[serde(default)]
+    pub use_default: bool,
+}
+
+/// parameters of `SetSketchParams::default()` as the crate defines them (read from the crate, not copied)
+pub fn default_setp() -> (SetP, usize) {
+    let d = SetSketchParams::default();
+    (SetP::new(d.get_b(), d.get_a(), d.get_q()), d.get_m() as usize)
 }
 
 pub trait Elem: Hash + Copy + Eq + Debug + Send + Sync + 'static {
@@ -257,7 +266,10 @@ macro_rules! impl_set {
                 self.0.reinit();
             }
             fn views(&self) -> Vec<View> {
-                vec![("signature", self.0.get_signature().iter().map(|x| *x as u64).collect())]
+                vec![
+                    ("signature", self.0.get_signature().iter().map(|x| *x as u64).collect()),
+                    ("hsketch", self.0.get_hsketch().iter().map(|x| *x as u64).collect()),
+                ]
             }
             fn hash_of(&self, id: u64) -> u64 {
                 BuildHasherDefault::<H>::default().hash_one(T::from_id(id))
@@ -345,6 +357,8 @@ fn mk<T: Elem, H: Hasher + Default + Send + Sync + 'static>(spec: &USpec) -> Box
         UKind::SmhF32 => Box::new(NSmh::<f32, T, H>(SuperMinHash::new(m, bh))),
         UKind::Smh2U64 => Box::new(NSmh2::<u64, T, H>(SuperMinHash2::new(m, bh))),
         UKind::Smh2U32 => Box::new(NSmh2::<u32, T, H>(SuperMinHash2::new(m, bh))),
+        UKind::SetU16 if spec.use_default => Box::new(NSet::<u16, T, H>(SetSketcher::default(), spec.setp.unwrap().params(m))),
+        UKind::SetU32 if spec.use_default => Box::new(NSet::<u32, T, H>(SetSketcher::default(), spec.setp.unwrap().params(m))),
         UKind::SetU16 => {
             Box::new(NSet::<u16, T, H>(SetSketcher::new(spec.setp.unwrap().params(m), bh), spec.setp.unwrap().params(m)))
         }
@@ -405,7 +419,7 @@ pub fn gen_uspec(rng: &mut crate::prng::Rng, kinds: &[UKind], max_m: usize) -> U
         _ => rng.log_range(1, max_m as u64) as usize,
     };
     let setp = if kind.is_set() { Some(gen_setp(rng, kind == UKind::SetU16)) } else { None };
-    USpec { kind, elem, hash, m, setp }
+    USpec { kind, elem, hash, m, setp, use_default: false }
 }
 
 pub fn gen_setp(rng: &mut crate::prng::Rng, is_u16: bool) -> SetP {
@@ -460,4 +474,27 @@ pub fn f32_tie_pairs(spec: &USpec) -> Vec<(u64, u64)> {
     }
     CACHE.lock().unwrap().insert(key, pairs.clone());
     pairs
+}
+
+/// An unrelated sketcher of the same type but other size / parameters, built, used and dropped: state shared
+/// between instances (statics, thread-locals, caches keyed incompletely) must not leak into the run's nodes.
+pub fn decoy_unode(spec: &USpec) {
+    let mut d = spec.clone();
+    d.use_default = false;
+    d.m = spec.m + 1 + spec.m / 2;
+    if let Some(sp) = d.setp.as_mut() {
+        sp.a_bits = (sp.a() * 2.0).to_bits();
+        sp.q = sp.q.saturating_add(3);
+    }
+    let mut n = make_unode(&d);
+    for k in 0..3u64 {
+        n.deliver(0xdec0_0000 + k);
+    }
+    if d.kind.is_dens() {
+        n.finish();
+    }
+    std::hint::black_box(n.views().len());
+    if let Some(x) = n.set_extras() {
+        std::hint::black_box(x);
+    }
 }
